@@ -109,6 +109,9 @@ def eval_tree(tree, parent, drop_except=False):
         if drop_except:
             return parent
         return parent.minus(eval_tree(tree[1], parent, drop_except))
+    if k == "incl":
+        # contained subtype (X.680 51.3): the values of the named type; its extension marker is not inherited
+        return tree[2].inter(parent)
     raise ValueError(k)
 
 
